@@ -21,4 +21,41 @@ PROPS = {
             {"name": "lockstep", "pkg": "c01", "run": "^TestC01$", "shards": {"quick": 4, "thorough": 16}, "timeout": {"quick": 300, "thorough": 1500}},
         ],
     },
+    "C05": {
+        "level": "exploration",
+        "level_text": "Held on every arrangement of one and two handlers (kind x sync/async x option x six behaviours, enumerated completely, three publishes each) and on K generated programs with panicking handlers at arbitrary positions, nesting and repeated publishes: no panic escaped a publish, every other eligible handler still ran (registry model in lockstep), the panic handler was called exactly once per panicking invocation with the event, the handler's reflect.Type and the panic value, Once stayed retired, Sequential ran again, Wait returned (watchdog-guarded).",
+        "level_note": "Trusts the registry model and the panic-value classifier; an asynchronous panic that escapes kills the child process, which the driver reports as a violation from the crash log. Wait-returns is bounded progress: a 2x20 s watchdog plus goroutine dumps decide deadlock vs inconclusive.",
+        "technique": "runtime monitoring: lockstep reference-model monitor + panic-handler trace checker over enumerated and generated arrangements",
+        "design_ref": "DESIGN.md section 5 C05",
+        "rule": "exhaustive arrangements of <=2 handlers {plain,ctx-aware} x {sync,async} x {-,Once,Sequential,filter} x {return, panic(string), panic(error), panic(struct), nil-deref, panic(nil)} published 3x with and without a panic handler, plus PRNG programs with scripts and nested publishes; distinct = the arrangement (option/behaviour list + panic-handler flag); non-trivial = contains a panicking and a non-panicking handler and at least one of Sequential/Once/Async on a panicking one",
+        "assumptions": ENGINE_ASSUME,
+        "parts": [
+            {"name": "panics", "pkg": "c05", "run": "^TestC05$", "shards": {"quick": 4, "thorough": 16}, "timeout": {"quick": 300, "thorough": 1500}},
+        ],
+    },
+    "C08": {
+        "level": "exploration",
+        "level_text": "Held on an enumerated grid (handler lists of length 0-3 over sync/async x plain/context-aware, cancellation never / before the call / by the k-th handler, ended by cancel or by deadline, all 16 hook subsets, hooks by option / by setter / with observability and store) and on K generated programs with nested publishes: no handler ran under a finished context, no synchronous handler started after the cancel stamp, context-aware handlers saw the publish context's value and its cancellation, every configured hook ran exactly once per publish at the right place in the stamped trace with the right type and event.",
+        "level_note": "Trusts the stamped trace (one mutex-protected logical clock written inside the callbacks) and the registry model. Async handlers after a mid-publish cancel are only held to at-most-once. Deadline expiry is produced by a harness context that reports DeadlineExceeded at a chosen logical point (no wall-clock).",
+        "technique": "runtime monitoring: per-publish trace automaton over hook / handler / context stamps + lockstep registry model",
+        "design_ref": "DESIGN.md section 5 C08",
+        "rule": "enumerated (handler list, cancel position, cancel kind, hook subset, installation variant) scenarios, each publishing twice, plus PRNG programs; distinct = that tuple (or the executed-program signature for generated ones); non-trivial = a cancel position strictly inside the list, or >=2 hooks with >=1 handler, or (generated) a mid-publish cancel / nested publish occurred",
+        "assumptions": ENGINE_ASSUME,
+        "parts": [
+            {"name": "hooks-ctx", "pkg": "c08", "run": "^TestC08$", "shards": {"quick": 4, "thorough": 16}, "timeout": {"quick": 300, "thorough": 1500}},
+        ],
+    },
+    "C20": {
+        "level": "exploration",
+        "level_text": "Held on K generated workloads (sync/async/once/sequential/filtered/panicking handlers, pre- and mid-publish cancellation, nested publishes, failing and succeeding appends): with a recording Observability every start had exactly one complete that received the context the start returned, handler and persist contexts carried the publish token, counts matched the actual invocations / append attempts and error flags matched panics / failures; with the real OpenTelemetry implementation over the SDK span recorder and manual reader every started span ended once, handler/persist spans were children of their publish span with matching error status, and all five counters and both histograms equalled the true numbers.",
+        "level_note": "Trusts the engine's own trace as ground truth (handler enter/exit stamps, store-wrapper append attempts) and the OTel SDK's in-memory recorder/reader. A span ended twice is not observable through the SDK (second End is a no-op) and is not claimed.",
+        "technique": "runtime monitoring: token-matching trace checker on a recording Observability + span-tree / metric-sum checker on the OTel SDK test exporters",
+        "design_ref": "DESIGN.md section 5 C20",
+        "rule": "PRNG programs with observability enabled (three profiles; store with injected append failures in two); distinct = set of per-publish (normal, panicked, skipped, failed-persist) outcome classes + executed-program signature; non-trivial = some publish had (>=1 panic or skip) and >=1 normal handler, or a failed persist",
+        "assumptions": ENGINE_ASSUME,
+        "parts": [
+            {"name": "recording", "pkg": "c20", "run": "^TestC20Recording$", "shards": {"quick": 4, "thorough": 16}, "timeout": {"quick": 300, "thorough": 1500}},
+            {"name": "otel", "pkg": "c20", "run": "^TestC20OTel$", "shards": {"quick": 4, "thorough": 16}, "timeout": {"quick": 300, "thorough": 1500}},
+        ],
+    },
 }
